@@ -208,7 +208,9 @@ func (s *Sim) Stamp() (time.Duration, uint64) {
 func (s *Sim) LateTotal() time.Duration {
 	s.mu.Lock()
 	defer s.mu.Unlock()
-	return s.lateTotal + s.forcedJump
+	// (spin-guard jumps move the clock to the next event's due time: nothing fires late because
+	// of them, so they are not slack)
+	return s.lateTotal
 }
 
 // Probe counts a reach probe.
@@ -729,7 +731,9 @@ func (s *Sim) Run(root func()) {
 		var due []*event
 		if n := len(s.events); n > 0 && s.events[0].due <= s.now {
 			stack := []int{0}
-			for len(stack) > 0 {
+			// (at most 64 of them are offered to the scheduler at a step: with thousands of leaked
+			// timers due at once, enumerating and sorting them all at every step is quadratic)
+			for len(stack) > 0 && len(due) < 64 {
 				i := stack[len(stack)-1]
 				stack = stack[:len(stack)-1]
 				if i >= n || s.events[i].due > s.now {
